@@ -423,12 +423,12 @@ def process_mismatch(sc, a, b, rel=1e-6, upto=None):
     if upto is not None:
         n = min(n, upto)
     # twin trajectories drift apart at rounding level and the drift is amplified from step to step (a self-cooling run loses
-    # 100 K over 360 steps): the first 120 steps are judged, with a tolerance that grows with the step index
-    n = min(n, 120)
+    # 100 K over 360 steps): the first 60 steps are judged, with a tolerance that grows with the step index
+    n = min(n, 60)
     step = [0]
 
     def close(u, v, scale):
-        return abs(u - v) <= rel * max(1.0, (step[0] + 1) / 30) * scale
+        return abs(u - v) <= rel * max(1.0, (step[0] + 1) / 10) * scale
 
     xm = sc.x0.to_molar(sc.mix).p if sc.x0.type == "weight" else sc.x0.p
     for k in range(n):
